@@ -17,6 +17,8 @@ type Job struct {
 	Custom func(shard, shards int, deadline time.Time) *explore.Result
 	// Shards overrides the default worker count (1 = run in a single worker).
 	Shards int
+	// NoConform switches the real-block conformance replay of this job's op sequences off.
+	NoConform bool
 }
 
 type Check struct {
